@@ -10,6 +10,10 @@ observation, with an arithmetic reference:
   py-emu    pce500.emulator.PCE500Emulator._tick_timers/_simulate_wait (the scheduler as the emulator ticks
             it: recorded advance() results, next targets, ISR byte in the emulator's memory)
   rust      sc62015_core::timer::TimerContext::tick_timers on a MemoryImage (rust/harness/src/c13.rs)
+  rust-kbd  the same TimerContext ticked through tick_timers_with_keyboard -- the wrapper CoreRuntime::step, the
+            HALT idle path and the device task really call -- with the history's host key events (["k", n]: n
+            events wait for the next MTI-driven scan; ["k", 0]: the host latches KEYI) and firmware-style ISR
+            acknowledgements, so that KEYI assertions meet timers firing with their status bit clear
 
 Reference (closed form, no loop): a timer with period p > 0 on an enabled scheduler whose grid was last
 anchored at `base` has boundaries base + k*p (k >= 1).  With `mark` the largest cycle ticked so far, a tick at
@@ -43,8 +47,11 @@ RULE = ("histories over (mti, sti, enabled): all period pairs in {0..12}^2 (comp
         "periods) with snapshot round trips inside them (saved target behind the cycle counter) and the catch-up "
         "tick afterwards; in 1 of 4 histories power-on resets after N > 0 cycles (clock restarts at 0: "
         "TimerScheduler.reset(), the real PCE500Emulator.reset(), TimerContext::reset(0)). Each history is "
-        "executed on TimerScheduler, on PCE500Emulator._tick_timers/_simulate_wait and on Rust "
-        "TimerContext::tick_timers. "
+        "executed on TimerScheduler, on PCE500Emulator._tick_timers/_simulate_wait, on Rust "
+        "TimerContext::tick_timers and on TimerContext::tick_timers_with_keyboard (scan closure = the history's key "
+        "events); 1 of 3 histories carries a keyboard dimension (own value stream): key events waiting for the next "
+        "MTI-driven scan, host-latched KEYI, ISR acknowledgements (0, KEYI kept, timer bits kept, random), keyboard "
+        "interrupt enable off in 1 of 8 of them. "
         "Machine layer: per pair in {0..12}^2 (quick 2, thorough 24 programs) plus larger periods, a generated "
         "NOP / MV IL,n+WAIT / HALT program stepped 24..73 times on PCE500Emulator.step and CoreRuntime.step with "
         "ISR acknowledgements and real save/load snapshots at generated steps (IMR = 0); plus per pair (quick 2, "
@@ -52,7 +59,12 @@ RULE = ("histories over (mti, sti, enabled): all period pairs in {0..12}^2 (comp
         "handler (RETI at once .. NOP runs .. own WAITs outlasting several periods) and vectors, IMR generated "
         "(IRM with one/both timer sources, 0xFF, IRM only, sources without IRM, 0), 40..119 steps with up to 5 "
         "real save/load round trips (also inside the handler) and up to 2 machine resets after N > 0 cycles "
-        "(PCE500Emulator.reset(); CoreRuntime power_on_reset + timer.reset_full(cycle_count)). "
+        "(PCE500Emulator.reset(); CoreRuntime power_on_reset + timer.reset_full(cycle_count)). Every second machine "
+        "run (both flavours) has a keyboard dimension: columns strobed (all / random / power-on state), keys held down "
+        "and released at generated steps on the machines' real keyboard matrices, harness acknowledgements that also "
+        "clear KEYI, keyboard interrupt enable off in 1 of 8, and in 2 of 3 of them the program acknowledges requests "
+        "itself (1..3 MV (ISR),v with v free of timer bits at instruction boundaries of the main program, in 1 of 3 "
+        "irq runs also at the handler's entry). "
         "Non-trivial = some active timer crosses >= 2 boundaries in the history, or a tick lands exactly on a "
         "boundary, or one gap skips > 1 period (machine layer: >= 2 target movements); distinct = (mti, sti, "
         "enabled, hash of the op list / program+step schedule).")
@@ -89,6 +101,22 @@ ASSUMPTIONS = [
     "clause on some continuation of the history",
     "ISR: bits 0/1 must equal (before | bits of the timers the implementation reported as fired); bits 2..7 must "
     "be unchanged by a tick (docstring of PCE500Emulator._set_isr_bits: 'OR mask into ISR register')",
+    "rust-kbd: tick_timers_with_keyboard is given a scan closure that reports the key events the history queued "
+    "since the last scan (the closure stands for the host's keyboard; the crate calls it only when MTI fires) and "
+    "['k', 0] sets the public key_irq_latched field (as lib.rs and the maintainers' test "
+    "tick_timers_with_keyboard_reasserts_keyi_without_events do); verdicts are exactly those of the bare tick -- "
+    "firing flags, next targets, ISR bits 0/1 = before | fired -- while ISR bit 2 (KEYI) is not judged (C12/C14) "
+    "and 'other bits unchanged' means bits 3..7; a rust-kbd failure on a timer / the ISR byte on which the bare "
+    "tick_timers run failed at or before the same op is the same root cause and dropped; the Python scheduler and "
+    "PCE500Emulator._tick_timers have no keyboard side in the default configuration (scan-on-timer off), ['k', n] is "
+    "a no-op there",
+    "machine layer, keyboard dimension: key presses/releases go to the machines' own keyboard (CoreRuntime: "
+    "KeyboardMatrix.press_matrix_code/release_matrix_code/handle_write(KOL/KOH); PCE500Emulator.press_key/"
+    "release_key, KOL/KOH written through emulator memory); what KEYI does is not judged, only that the timer verdicts "
+    "keep holding with it; a step whose instruction is the program's own MV (ISR),v (v never contains a timer bit) is "
+    "not judged on ISR bits 0/1 on PCE500Emulator (it ticks before executing the store), on CoreRuntime only 'fired "
+    "during the step => bit set after it' is kept (lib.rs step: execute, then the per-cycle tick loop; nothing after "
+    "the tick loop clears a timer bit outside RETI, during which the timers are gated)",
     "Rust finalize_instruction_with_clamp, timer_scale and preserve_phase=false are not part of the statement "
     "and are not exercised",
     "PCE500Emulator._simulate_wait(n) is expected to advance cycle_count by n and to tick the scheduler once per "
@@ -159,7 +187,8 @@ def ref_run(case: Dict[str, Any]) -> Tuple[List[Any], Dict[str, Any]]:
     last = 0
     out: List[Any] = []
     facts = {"cross_m": 0, "cross_s": 0, "landing": False, "multi": False, "both": False, "same": False,
-             "hi": False, "ticks": 0, "gated": False, "stale_snap": False, "catch_up": False, "restart": False}
+             "hi": False, "ticks": 0, "gated": False, "stale_snap": False, "catch_up": False, "restart": False,
+             "keys": False}
     gated_since_tick = False
 
     def one(c: int) -> Dict[str, Any]:
@@ -228,6 +257,10 @@ def ref_run(case: Dict[str, Any]) -> Tuple[List[Any], Dict[str, Any]]:
             out.append({"nm": tm.nxt(), "ns": ts.nxt(), "hi": False})
         elif verb == "w":
             out.append({"isr": arg & 0xFF})
+        elif verb == "k":
+            # host keyboard activity: no effect on the timers' boundaries
+            facts["keys"] = True
+            out.append({})
         else:
             raise HarnessError(f"bad op {op!r}")
     return out, facts
@@ -321,6 +354,8 @@ def run_py_sched(case: Dict[str, Any]) -> List[Any]:
             s.reset()                       # default cycle_base: the power-on call PCE500Emulator.reset() makes
             last = 0
             obs.append([s.next_mti, s.next_sti, 0, None])
+        elif verb == "k":
+            obs.append([])                  # the scheduler has no keyboard side
     return obs
 
 
@@ -438,16 +473,20 @@ def run_py_emu(case: Dict[str, Any]) -> List[Any]:
             last = 0
             obs.append([emu._scheduler.next_mti, emu._scheduler.next_sti, int(emu.cycle_count),
                         emu.memory.read_byte(isr_addr) & 0xFF])
+        elif verb == "k":
+            obs.append([])                  # _tick_timers does not scan the keyboard (scan-on-timer is off)
     return obs
 
 
-def run_rust(cases: List[Dict[str, Any]]) -> List[Any]:
+def run_rust(cases: List[Dict[str, Any]], kbd: bool = False) -> List[Any]:
+    """kbd: every tick goes through TimerContext::tick_timers_with_keyboard (scan closure = the history's key
+    events) instead of the bare tick_timers."""
     out: List[Any] = []
     B = 64
     for i in range(0, len(cases), B):
         resp = M.rust_call({"cmd": "c13.batch", "cases": [
             {"mti": c["mti"], "sti": c["sti"], "enabled": c["enabled"], "isr0": c.get("isr0", 0), "ops": c["ops"],
-             "runaway": RUNAWAY}
+             "runaway": RUNAWAY, "kbd": kbd, "kbirq": bool(c.get("kbirq", True))}
             for c in cases[i:i + B]]})
         if not resp.get("ok"):
             raise HarnessError(f"c13.batch failed: {str(resp)[:300]}")
@@ -491,7 +530,9 @@ class _Judge:
         self.has_isr = has_isr
         self.dead = {"MTI": False, "STI": False, "ISR": False, "CALLS": False}
         self.out: List[Violation] = []
+        self.out_keys: List[str] = []        # judge key ("MTI"/"STI"/"ISR"/"CALLS") of each entry of `out`
         self.first_fail_op: Dict[str, int] = {}
+        self.stats: Dict[str, int] = {}
 
     def fail(self, key: str, opi: int, subcheck: str, timer: str, ctx: str, symptom: str, detail: str) -> None:
         if self.dead[key]:
@@ -501,13 +542,21 @@ class _Judge:
         if key == "CALLS":   # the emulator is out of step with the history: nothing after this is meaningful
             for k in self.dead:
                 self.dead[k] = True
+        self.out_keys.append(key)
         self.out.append(Violation(subcheck, f"{self.impl}:{timer}{ctx}", symptom, self.case,
                                   f"op#{opi} {self.case['ops'][opi]!r} (mti={self.case['mti']} sti={self.case['sti']} "
                                   f"enabled={self.case['enabled']}): {detail}"))
 
 
-def judge(case: Dict[str, Any], ref: List[Any], impl: str, obs: Any, has_isr: bool) -> Tuple[List[Violation], Dict[str, int]]:
+def judge(case: Dict[str, Any], ref: List[Any], impl: str, obs: Any, has_isr: bool, kbd: bool = False,
+          info: Optional[Dict[str, Any]] = None) -> Tuple[List[Violation], Dict[str, int]]:
+    """kbd: the implementation ticks through the keyboard-scanning wrapper, which may assert ISR bit 2 (KEYI) on a
+    tick; bits 0/1 are judged exactly as before, 'other bits unchanged' then means bits 3..7.
+    info (optional) receives {"keys": judge key per violation, "stats": counters for labels}."""
     J = _Judge(impl, case, has_isr)
+    if info is not None:
+        info["keys"], info["stats"] = J.out_keys, J.stats
+    other = 0xF8 if kbd else 0xFC
     if isinstance(obs, dict) and ("panic" in obs or "error" in obs):
         msg = str(obs.get("panic") or obs.get("error"))
         J.out.append(Violation("crash", f"{impl}", "implementation raised/panicked", case, msg[:300]))
@@ -573,9 +622,15 @@ def judge(case: Dict[str, Any], ref: List[Any], impl: str, obs: Any, has_isr: bo
                 names = "+".join(TIMERS[i] for i in range(2) if (missing | extra) >> i & 1)
                 J.fail("ISR", opi, "status-bit", names, ctx, sym,
                        f"tick at {c}: flags={flags & 3:02b} ISR before={isr_before:#04x} after={got:#04x}")
-            elif (got & 0xFC) != (isr_before & 0xFC):
-                J.fail("ISR", opi, "status-bit", "other-bits", ctx, "tick changed ISR bits 2..7",
+            elif (got & other) != (isr_before & other):
+                J.fail("ISR", opi, "status-bit", "other-bits", ctx,
+                       "tick changed ISR bits 3..7" if kbd else "tick changed ISR bits 2..7",
                        f"tick at {c}: ISR before={isr_before:#04x} after={got:#04x}")
+            if kbd and (got & 4) and not (isr_before & 4):
+                J.stats["keyi_rise"] = J.stats.get("keyi_rise", 0) + 1
+                if flags & 3 & ~isr_before:
+                    # KEYI was asserted on the very tick on which a timer fired whose status bit was clear
+                    J.stats["keyi_rise_on_fresh_fire"] = J.stats.get("keyi_rise_on_fresh_fire", 0) + 1
             new_isr = got
         prev_c = c
         return new_isr
@@ -685,6 +740,8 @@ def judge(case: Dict[str, Any], ref: List[Any], impl: str, obs: Any, has_isr: bo
                     J.dead[k] = True
             if has_isr and o[3] is not None:
                 isr = int(o[3])     # reset may clear memory: re-baseline the status byte, no verdict
+        elif verb == "k":
+            pass
         elif verb == "w":
             isr = e["isr"]
             if has_isr and o[0] != isr:
@@ -733,8 +790,9 @@ def differential(case: Dict[str, Any], ref: List[Any], py: List[Any], rs: Any,
 def evaluate(cases: List[Dict[str, Any]], with_emu: bool = True) -> List[Tuple[List[Violation], Dict[str, Any]]]:
     """Run every implementation on every case; returns per case (violations, reference facts)."""
     rs_all = run_rust(cases)
+    kb_all = run_rust(cases, kbd=True)
     res: List[Tuple[List[Violation], Dict[str, Any]]] = []
-    for case, rs in zip(cases, rs_all):
+    for case, rs, kb in zip(cases, rs_all, kb_all):
         ref, facts = ref_run(case)
         vs: List[Violation] = []
         try:
@@ -751,6 +809,20 @@ def evaluate(cases: List[Dict[str, Any]], with_emu: bool = True) -> List[Tuple[L
         vs += v2
         if isinstance(py, list) and isinstance(rs_obs, list):
             vs += differential(case, ref, py, rs_obs, f1, f2)
+        # the same TimerContext ticked through tick_timers_with_keyboard (what CoreRuntime really calls).  Where
+        # the bare tick_timers run already failed on the same timer / the ISR byte at or before that op, it is the
+        # same code and the same root cause, not a second finding.
+        kb_obs = kb.get("obs") if isinstance(kb, dict) and "obs" in kb else kb
+        kinfo: Dict[str, Any] = {}
+        v4, f4 = judge(case, ref, "rust-kbd", kb_obs, True, True, kinfo)
+        for v, key in zip(v4, kinfo.get("keys", [])):
+            if key in f2 and f2[key] <= f4.get(key, -1):
+                continue
+            vs.append(v)
+        if len(v4) > len(kinfo.get("keys", [])):      # crash-level verdicts carry no key
+            vs += [v for v in v4[len(kinfo.get("keys", [])):]]
+        for k_, n_ in kinfo.get("stats", {}).items():
+            facts[k_] = facts.get(k_, 0) + n_
         if with_emu:
             try:
                 with M.py_watchdog("PCE500Emulator._tick_timers history"):
@@ -806,6 +878,8 @@ class _Gen:
         self.nticks = 0
         self.p_gate = 0      # percent per step: handler-shaped gated stretch
         self.p_restart = 0   # percent per step: power-on reset (clock restarts at 0)
+        self.kst: Optional[Stream] = None   # own value stream of the keyboard dimension (leaves the others alone)
+        self.p_key = 0       # percent per step: host keyboard activity / firmware acknowledging ISR
 
     def _advance_ref(self, c: int) -> None:
         self.tm.tick(c)
@@ -898,6 +972,22 @@ class _Gen:
         self.ts.reset(0)
         self.c = 0
 
+    def key_activity(self) -> None:
+        """Host keyboard activity between two ticks: key events waiting for the next (MTI-driven) scan, the host
+        latching KEYI itself, or the firmware acknowledging requests (ISR written with the timer bits and/or KEYI
+        cleared) -- so that a later KEYI assertion meets a timer firing with its status bit clear."""
+        st = self.kst
+        assert st is not None
+        k = st.below(10)
+        if k <= 3:
+            self.ops.append(["k", 1 + st.below(2)])
+        elif k == 4:
+            self.ops.append(["k", 0])
+        else:
+            self.ops.append(["w", st.choice((0, 0, 0, 0x04, 0x03, 0x01, 0x02, st.u32() & 0xF8, st.u32() & 0xFB))])
+        if st.chance(1, 3):
+            self.ops.append(["w", st.choice((0, 0, 0x04, st.u32() & 0xFC))])
+
     def isr_write(self) -> None:
         st = self.st
         k = st.below(4)
@@ -933,6 +1023,8 @@ class _Gen:
 
     def sprinkle(self, p_reset: int, p_snap: int, p_w: int) -> None:
         st = self.st
+        if self.p_key and self.kst is not None and self.kst.below(100) < self.p_key:
+            self.key_activity()
         if self.p_gate and st.below(100) < self.p_gate:
             self.handler_episode()
         if self.p_restart and st.below(100) < self.p_restart and self.c > 0:
@@ -1024,6 +1116,14 @@ def gen_case(seed: int, mti: int, sti: int, enabled: bool, kind: str, idx: int, 
     if kind == "percycle" and not small:
         g.p_gate *= 3
         g.p_restart *= 3
+    # keyboard dimension (own stream): 1 of 3 histories carries host key events / KEYI latches / ISR acknowledgements
+    kst = Stream(seed, 0xC13B, mti & 0xFFFFFFFF, sti & 0xFFFFFFFF, idx, int(enabled))
+    kb_flavour = kst.below(3) == 0
+    kbirq = True
+    if kb_flavour:
+        g.kst = kst
+        g.p_key = kst.choice((8, 15, 30)) * (3 if (kind == "percycle" and not small) else 1)
+        kbirq = kst.below(8) != 0
     if kind == "percycle":
         if small:
             total = 3 * lcm + 5 if lcm else 20
@@ -1076,8 +1176,11 @@ def gen_case(seed: int, mti: int, sti: int, enabled: bool, kind: str, idx: int, 
             else:
                 g.tick_gap(2)
             g.sprinkle(pr, ps_, pw)
-    return {"mti": mti, "sti": sti, "enabled": enabled, "isr0": st.choice((0, 0, 0xFC, 3, 1, 2, st.u32() & 0xFF)),
+    case = {"mti": mti, "sti": sti, "enabled": enabled, "isr0": st.choice((0, 0, 0xFC, 3, 1, 2, st.u32() & 0xFF)),
             "ops": g.ops, "kind": kind, "base": base_cls}
+    if kb_flavour:
+        case["kbirq"] = kbirq
+    return case
 
 
 def plan(seed: int, tier: str) -> List[Tuple[int, int, bool, str, int, str]]:
@@ -1142,7 +1245,7 @@ def _labels(case: Dict[str, Any], facts: Dict[str, Any]) -> List[str]:
         lab.append("large-period")
     verbs = {op[0] for op in case["ops"]}
     for v, name in (("r", "has-reset"), ("s", "has-snapshot"), ("w", "has-isr-write"), ("b", "has-burst"),
-                    ("g", "has-gated-advance"), ("R", "has-power-on-reset")):
+                    ("g", "has-gated-advance"), ("R", "has-power-on-reset"), ("k", "has-key-activity")):
         if v in verbs:
             lab.append(name)
     for k, name in (("landing", "exact-landing"), ("multi", "multi-period-gap"), ("both", "both-fire-one-tick"),
@@ -1155,6 +1258,12 @@ def _labels(case: Dict[str, Any], facts: Dict[str, Any]) -> List[str]:
         lab.append("snapshot-with-stale-target")
     if facts.get("catch_up"):
         lab.append("catch-up-fire-after-gated-stretch")
+    if case.get("kbirq") is False:
+        lab.append("keyboard-irq-disabled")
+    if facts.get("keyi_rise"):
+        lab.append("keyi-asserted-by-a-tick")
+    if facts.get("keyi_rise_on_fresh_fire"):
+        lab.append("keyi-asserted-on-tick-of-fresh-timer-fire")
     return lab
 
 
@@ -1174,11 +1283,13 @@ def _shard(task: Tuple[int, str, List[Tuple[int, int, bool, str, int, str]]]) ->
             for v in vs:
                 rep.violate(v)
             nt = _nontrivial(case, facts)
-            key = jhash([case["mti"], case["sti"], case["enabled"], case["ops"]], 16) if nt else None
+            key = jhash([case["mti"], case["sti"], case["enabled"], case["ops"], case.get("kbirq", True)],
+                        16) if nt else None
             n += 1
             sample = None
             if n % 97 == 5 and len(case["ops"]) <= 40:
-                sample = {k: case[k] for k in ("mti", "sti", "enabled", "isr0", "kind", "base", "ops")}
+                sample = {k: case[k] for k in ("mti", "sti", "enabled", "isr0", "kind", "base", "ops", "kbirq")
+                          if k in case}
             rep.case(key, _labels(case, facts), sample)
             rep.extra["ticks"] = rep.extra.get("ticks", 0) + facts["ticks"]
     return rep
@@ -1190,6 +1301,18 @@ def _machine_labels(case: Dict[str, Any], facts: Dict[str, Any]) -> List[str]:
         lab.append("machine:targets>i32")
     if any(s[1] == 1 for s in case["steps"]):
         lab.append("machine:real-snapshot")
+    if case.get("keys"):
+        lab.append("machine:keyboard-activity")
+    if case.get("kbirq") is False:
+        lab.append("machine:keyboard-irq-disabled")
+    if facts.get("keyi_rise"):
+        lab.append("machine:keyi-asserted-in-a-step")
+    if facts.get("keyi_rise_with_fresh_fire"):
+        lab.append("machine:keyi-asserted-in-step-of-fresh-timer-fire")
+    if facts.get("isr_store_steps"):
+        lab.append("machine:program-acknowledges-isr")
+    if facts.get("isr_store_fire"):
+        lab.append("machine:timer-fired-in-step-of-isr-store")
     if case.get("flavour") == "irq":
         lab.append("machine:irq-flavour")
         lab.append(f"machine:imr={int(case.get('imr', 0)):#04x}")
@@ -1224,7 +1347,7 @@ def _machine_shard(task: Tuple[int, str, List[Tuple[Any, ...]]]) -> Report:
                 rep.violate(v)
             nt = facts.get("fires", 0) >= 2
             key = jhash(["m", case["mti"], case["sti"], case["enabled"], case["prog"], case["steps"],
-                         case.get("handler"), case.get("imr")], 16) if nt else None
+                         case.get("handler"), case.get("imr"), case.get("kbirq", True)], 16) if nt else None
             n += 1
             sample = case if (n % 41 == 3 and len(case["steps"]) <= 40) else None
             rep.case(key, _machine_labels(case, facts), sample)
